@@ -2,5 +2,6 @@ SPECIFICATION Spec
 CONSTANTS MaxObs = 4
           MaxSrc = 3
           Times = {1, 2}
+          Deviations = {}
           Export = TRUE
 INVARIANT AlgSatisfiesProperty
